@@ -735,22 +735,25 @@ theorem exec_next_congr (p q : Plan) (r : Run) (h : p.next = q.next) :
         · exact ⟨rfl, Or.inl ⟨rfl, rfl⟩⟩
         · exact ih _ _
 
-/-- C09.order_agrees: for concat, localeCompare, slice, substring, substr, trim, toLowerCase and toUpperCase the Go
-    statement order IS the ES5 step order: receiver first, then the arguments left to right, each at most once
-    (the end / length argument only if it is supplied and not undefined) -/
-theorem order_agrees (E : Env) (m : String)
-    (hm : m ∈ ["concat", "localeCompare", "slice", "substring", "substr", "trim", "toLowerCase", "toUpperCase"]) :
+/-- the String methods whose conversion order is modelled -/
+def seqMethods : List String :=
+  ["charAt", "charCodeAt", "concat", "indexOf", "lastIndexOf", "localeCompare", "slice", "substring", "substr", "split",
+   "replace", "trim", "toLowerCase", "toUpperCase"]
+
+/-- C09.order_agrees: for every modelled method the Go statement order IS the ES5 step order: receiver first, then
+    the arguments left to right, each at most once (an end / length / limit / position argument that is optional
+    only if it is supplied and not undefined) -/
+theorem order_agrees (E : Env) (m : String) (hm : m ∈ seqMethods) :
     goOrder E m = Spec.es5Order m := by
   funext r d
-  simp only [List.mem_cons, List.not_mem_nil, or_false] at hm
-  rcases hm with h | h | h | h | h | h | h | h <;> subst h <;> simp [goOrder, Spec.es5Order] <;>
-    (try (by_cases h1 : r.args.length = 1 <;> simp [h1, present])) 
+  simp only [seqMethods, List.mem_cons, List.not_mem_nil, or_false] at hm
+  rcases hm with h | h | h | h | h | h | h | h | h | h | h | h | h | h <;> subst h <;> simp [goOrder, Spec.es5Order] <;>
+    (try (by_cases h1 : r.args.length = 1 <;> simp [h1, present]))
 
-/-- C09.seq_log_eq: for those methods, on every receiver and argument list (primitive, scripted, throwing), the
+/-- C09.seq_log_eq: for every modelled method, on every receiver and argument list (primitive, scripted, throwing), the
     implementation's plan and the ES5 plan make the same conversion calls in the same order, throw at the
     same call, and otherwise apply their pure functions to the same converted values -/
-theorem seq_log_eq (E : Env) (m : String) (r : Run)
-    (hm : m ∈ ["concat", "localeCompare", "slice", "substring", "substr", "trim", "toLowerCase", "toUpperCase"]) :
+theorem seq_log_eq (E : Env) (m : String) (r : Run) (hm : m ∈ seqMethods) :
     ((goPlan E m).run r).1 = ((Spec.es5Plan E m).run r).1 ∧
     ((((goPlan E m).run r).2 = .throwScript ∧ ((Spec.es5Plan E m).run r).2 = .throwScript) ∨
      ∃ d', ((goPlan E m).run r).2 = (goPlan E m).finish r d' ∧ ((Spec.es5Plan E m).run r).2 = (Spec.es5Plan E m).finish r d') :=
@@ -822,16 +825,13 @@ example : (SObj.build sABC []).hasOwn [0x30, 0x31] = false ∧ (SObj.build sABC 
 -- order regions: the call log of the implementation's plan against the ES5 plan (0 = receiver, k+1 = argument k)
 def oS (bs : List Nat) : Operand := .obj [.ret (.str bs)]
 def oN (n : Nat) : Operand := .obj [.ret (num n)]
--- order_charAt_pos_first: charAt.call(o, p) calls p.valueOf before o.toString
-example : ((goPlan E0 "charAt").run ⟨oS sABC, [oN 1]⟩).1 = [1, 0] ∧ ((Spec.es5Plan E0 "charAt").run ⟨oS sABC, [oN 1]⟩).1 = [0, 1] := by decide
--- order_split_limit0: "a,b".split(sep, 0) never converts sep
-example : ((goPlan E0 "split").run ⟨.prim (.str sABC), [oS [0x2C], .prim (num 0)]⟩).1 = [] ∧
-    ((Spec.es5Plan E0 "split").run ⟨.prim (.str sABC), [oS [0x2C], .prim (num 0)]⟩).1 = [1] := by decide
--- order_replace_lazy: "abc".replace("x", r) never converts r
-example : ((goPlan E0 "replace").run ⟨.prim (.str sABC), [.prim (.str [0x78]), oS [0x79]]⟩).1 = [] ∧
+-- the four former order regions (repaired by 9cedee7, 90e37ee, fa1b2ca, b1a6116): both plans agree
+example : ((goPlan E0 "charAt").run ⟨oS sABC, [oN 1]⟩).1 = [0, 1] ∧ ((Spec.es5Plan E0 "charAt").run ⟨oS sABC, [oN 1]⟩).1 = [0, 1] := by decide
+example : ((goPlan E0 "split").run ⟨.prim (.str sABC), [oS [0x2C], .prim (num 0)]⟩) = ([1], .arr []) ∧
+    ((Spec.es5Plan E0 "split").run ⟨.prim (.str sABC), [oS [0x2C], .prim (num 0)]⟩) = ([1], .arr []) := by decide
+example : ((goPlan E0 "replace").run ⟨.prim (.str sABC), [.prim (.str [0x78]), oS [0x79]]⟩).1 = [2] ∧
     ((Spec.es5Plan E0 "replace").run ⟨.prim (.str sABC), [.prim (.str [0x78]), oS [0x79]]⟩).1 = [2] := by decide
--- order_lastIndexOf_empty: "".lastIndexOf("x", p) never converts p
-example : ((goPlan E0 "lastIndexOf").run ⟨.prim (.str []), [.prim (.str [0x78]), oN 2]⟩).1 = [] ∧
+example : ((goPlan E0 "lastIndexOf").run ⟨.prim (.str []), [.prim (.str [0x78]), oN 2]⟩).1 = [2] ∧
     ((Spec.es5Plan E0 "lastIndexOf").run ⟨.prim (.str []), [.prim (.str [0x78]), oN 2]⟩).1 = [2] := by decide
 -- slice converts start before end, the end conversion does not run when start throws
 example : (goPlan E0 "slice").run ⟨.prim (.str sABC), [oN 1, oN 2]⟩ = ([1, 2], .str [0x62]) ∧
